@@ -89,6 +89,10 @@ def _ro(a):
     return v
 
 
+class _CallerArray(np.ndarray):
+    """A trivial ndarray subclass, standing for numpy.memmap and the like."""
+
+
 def _tables_digest():
     from scared.aes import base as B
     parts = [B.SBOX, B.INV_SBOX, B.RCON, B.SHIFT_ROWS, B.INV_SHIFT_ROWS]
@@ -175,6 +179,10 @@ def run_case(case):
     lay = np.random.default_rng(case['sub'] ^ 0x5eed)
     arr_b = _ro(_gen.layout_nd(lay, blocks.astype(dt)) if shape in ('many_one', 'paired') else blocks[0].astype(dt))
     arr_k = _ro(_gen.layout_nd(lay, keys.astype(dt)) if shape in ('one_many', 'paired') else keys[0].astype(dt))
+    if (case['sub'] >> 3) % 3 == 0:
+        # inputs that are instances of an ndarray subclass (what numpy.memmap or a record view hands over): still read-only, still the caller's memory
+        arr_b, arr_k = arr_b.view(_CallerArray), arr_k.view(_CallerArray)
+        t.count('ndarray_subclass_inputs')
     t.count('layout:' + ('C' if arr_b.flags.c_contiguous and arr_k.flags.c_contiguous else 'non_C'))
     snap = (arr_b.tobytes(), arr_k.tobytes())
     n = max(nb, nkeys)
@@ -473,5 +481,23 @@ def _primitives(t, case):
         t.check(np.array_equal(got, exp), 'prim_add_round_key', None)
         got = A.inv_add_round_key(_ro(s.copy()), _ro(k.copy()))
         t.check(np.array_equal(got, exp), 'prim_inv_add_round_key', None)
+    # state and key of different integer types (an int8 state holds bytes 0..127, the key any byte): values, never wrapped
+    for sdt, kdt in (('int8', 'uint8'), ('int8', 'int16'), ('uint8', 'int16'), ('int16', 'uint8'), ('uint8', 'int64'), ('int32', 'uint8'), ('int8', 'int64')):
+        hi_s = 128 if sdt == 'int8' else 256
+        s_ = rng.integers(0, hi_s, (6, 16)).astype(sdt)
+        k_ = rng.integers(0, 256, (6, 16))
+        k_[0], k_[1] = 255, 128
+        k_ = k_.astype(kdt)
+        exp = np.array(s_.tolist(), dtype='int64') ^ np.array(k_.tolist(), dtype='int64')
+        for f in (A.add_round_key, A.inv_add_round_key):
+            try:
+                got = np.asarray(f(_ro(s_.copy()), _ro(k_.copy())))
+            except (TypeError, ValueError):
+                t.count('primitive_dtype_refused')
+                continue
+            t.count('primitive_values', exp.size)
+            t.count('primitive_wide_dtype_calls')
+            t.check(got.shape == exp.shape and np.array_equal(got.astype('int64') & 0xFF, exp) and np.array_equal(got.astype('int64'), exp), 'prim_dtype_' + f.__name__,
+                    lambda: dict(f=f.__name__, state_dtype=sdt, key_dtype=kdt, got=got[0].tolist()[:6], expected=exp[0].tolist()[:6]))
     t.count('stop_points', 0)
     return t.result(sig='primitives', sample=dict(case=case, comparisons=t.checks, values=t.counters.get('primitive_values')))
